@@ -162,8 +162,27 @@ theorem C20_dynamic_order_count {α : Type} (a : Dynamic.Arr α) (v : α) (h : D
   refine ⟨?_, rfl, rfl, ⟨by simp [h.len], by simp; omega⟩⟩
   simp only
   have hc : a.count < a.items.length := by rw [h.len]; exact hroom
-  rw [List.take_succ, List.take_set_of_le (Nat.le_refl _)]
-  simp [List.getElem?_set, hc]
+  rw [List.take_add_one, List.take_set_of_le (Nat.le_refl _)]
+  simp [hc]
+
+/-- **batch append** (`a += other`): with room for all of them, every item of `other` is appended, in
+    order, the count grows by their number — up to and including exactly filling the array -/
+theorem C20_dynamic_appendAll {α : Type} : ∀ (vs : List α) (a : Dynamic.Arr α), DynInv a → a.count + vs.length ≤ a.cap →
+    dynAbs (Dynamic.appendAll a vs) = dynAbs a ++ vs ∧ (Dynamic.appendAll a vs).count = a.count + vs.length ∧
+    DynInv (Dynamic.appendAll a vs)
+  | [], a, h, _ => ⟨by simp [Dynamic.appendAll], by simp [Dynamic.appendAll], h⟩
+  | v :: vs, a, h, hroom => by
+    have hr : a.count < a.cap := by simp only [List.length_cons] at hroom; omega
+    obtain ⟨e1, e2, _, e4⟩ := C20_dynamic_order_count a v h hr
+    have hcap : (Dynamic.emplace a v).1.cap = a.cap := rfl
+    obtain ⟨i1, i2, i3⟩ := C20_dynamic_appendAll vs (Dynamic.emplace a v).1 e4
+      (by rw [e2, hcap]; simp only [List.length_cons] at hroom; omega)
+    have hstep : Dynamic.appendAll a (v :: vs) = Dynamic.appendAll (Dynamic.emplace a v).1 vs := by
+      simp [Dynamic.appendAll]
+    rw [hstep]
+    refine ⟨?_, ?_, i3⟩
+    · rw [i1, e1]; simp
+    · rw [i2, e2]; simp only [List.length_cons]; omega
 
 /-- iteration over the growable array yields exactly the inserted items in order -/
 theorem C20_dynamic_iter {α : Type} (a : Dynamic.Arr α) (dflt : α) (h : DynInv a) :
